@@ -376,6 +376,83 @@ impl ReplDriver {
     }
 
     // -----------------------------------------------------------------------
+    // C08: a replica that fills a whole 32768-block bitfield page out of order
+
+    pub fn page_run(&mut self, gen: Value, total: u64, variant: u64) {
+        self.rec().emit(json!({"e":"reset","gen":gen}));
+        self.rec().count("histories", 1);
+        let kp = test_key_pair();
+        let (w, _) = Core::create("w", VDisk::new(), kp.clone());
+        let (r, _) = Core::create("r", VDisk::new(), public_only(&kp));
+        let mut p = Pair { w, r, wbytes: vec![] };
+        let vw = p.w.view();
+        self.rec().emit(json!({"e":"create","c":"w","key":"k1","writable":true,"view":vw}));
+        let vr = p.r.view();
+        self.rec().emit(json!({"e":"create","c":"r","key":"k1","writable":false,"view":vr}));
+        // one-byte blocks in runs of equal bytes (run-length friendly)
+        let mut batch: Vec<Vec<u8>> = Vec::with_capacity(total as usize);
+        let mut left = total;
+        while left > 0 {
+            let run = self.rng.gen_range(1..=left.min(7000));
+            let byte: u8 = self.rng.gen();
+            for _ in 0..run {
+                batch.push(vec![byte]);
+            }
+            left -= run;
+        }
+        p.wbytes = vec![1; total as usize];
+        self.plain_w(&mut p, &Op::Batch(batch));
+        let mut lin = Lineage { start: Start::Images(p.r.disk.images()), ops: vec![] };
+        let page = 32768u64;
+        // first the last block of the page together with the upgrade
+        let first = page - 1;
+        let req = Req { block: Some(RequestBlock { index: first, nodes: p.r.missing_nodes(first).unwrap_or(0) }), hash: None, seek: None,
+                        upgrade: Some(RequestUpgrade { start: 0, length: total }) };
+        if let Some(proof) = self.make_proof(&mut p, &req) {
+            self.apply_honest(&mut p, &req, proof, &FaultCfg::none(), &mut lin);
+        }
+        // then everything below it except one gap, in an order that depends on the variant, unlogged
+        let gap = match variant % 3 { 0 => 0, 1 => 12345, _ => page - 2 };
+        let mut order: Vec<u64> = (0..first).filter(|i| *i != gap).collect();
+        match variant % 2 { 0 => order.reverse(), _ => {} }
+        let mut failed = 0u64;
+        for i in &order {
+            let nodes = p.r.missing_nodes(*i).unwrap_or(0);
+            match p.w.create_proof(Some(RequestBlock { index: *i, nodes }), None, None, None) {
+                Ok(Some(pr)) => {
+                    let ret = p.r.apply_proof(&pr);
+                    if ret["applied"] != true {
+                        failed += 1;
+                    }
+                }
+                _ => failed += 1,
+            }
+        }
+        p.r.drain();
+        p.w.drain();
+        let mut ranges = vec![];
+        if gap > 0 { ranges.push(json!([0, gap])); }
+        if gap + 1 < first { ranges.push(json!([gap + 1, first])); }
+        let v = p.r.view();
+        self.rec().count("proofs_applied", order.len() as u64);
+        self.rec().emit(json!({"e":"bulk","c":"r","ranges":ranges,"failed":failed,"view":v}));
+        // closing the gap
+        let req = Req { block: Some(RequestBlock { index: gap, nodes: p.r.missing_nodes(gap).unwrap_or(0) }), hash: None, seek: None, upgrade: None };
+        if let Some(proof) = self.make_proof(&mut p, &req) {
+            self.apply_honest(&mut p, &req, proof, &FaultCfg::none(), &mut lin);
+        }
+        self.plain_r(&mut p, &Op::Reopen);
+        // one block beyond the page, then reopen again
+        if total > page {
+            let req = Req { block: Some(RequestBlock { index: page, nodes: p.r.missing_nodes(page).unwrap_or(0) }), hash: None, seek: None, upgrade: None };
+            if let Some(proof) = self.make_proof(&mut p, &req) {
+                self.apply_honest(&mut p, &req, proof, &FaultCfg::none(), &mut lin);
+            }
+            self.plain_r(&mut p, &Op::Reopen);
+        }
+    }
+
+    // -----------------------------------------------------------------------
     // C04: alterations of an honest proof
 
     /// Apply every alteration, each judged from the same replica state: an accepted one is
@@ -941,6 +1018,7 @@ pub fn run(args: &[String]) {
         match mode.as_str() {
             "honest" => rd.honest_run(gen, &g, &fc, false),
             "forge" => rd.honest_run(gen, &g, &FaultCfg::none(), true),
+            "page" => rd.page_run(gen, 32768 + (r as u64 % 3) * 117, r as u64),
             "lattice" => {
                 let sizes = [0u64, 1, 2, 3, 4, 5, 7, 8, 9];
                 let n = sizes[r % sizes.len()];
